@@ -68,9 +68,9 @@ def completePath (r : Req) (s : SubPath) : Option Path :=
 /-- the registration queries built by `addSubscription` -/
 def regQueries (r : Req) : List Path :=
   let pre := r.target :: ((if r.origin = "" then [] else [r.origin]) ++ r.pfx)
-  r.subs.filterMap (fun s =>
-    if s.isNil then none
-    else some (pre ++ (if r.origin = "" ∧ s.origin ≠ "" then [s.origin] else []) ++ s.path))
+  -- a subscription without a path (`isNil`) has empty `origin` and `path`: the query is the prefix
+  r.subs.map (fun s =>
+    pre ++ (if r.origin = "" ∧ s.origin ≠ "" then [s.origin] else []) ++ s.path)
 
 /-! ### queue items and responses -/
 
